@@ -361,6 +361,7 @@ def exercise(ctx, prs, label, rng, budget, none_first=False, zero_first=False, w
     # adjustments: an indexed read/write collection (negative values and values above 1 are documented as valid)
     for obj, path in world.objs.get("autoshape", []):
         try:
+            obj = eval(path, {"prs": prs})  # noqa: S307 - the world may have been discovered on another instance of the file
             n = len(obj.adjustments)
         except Exception:  # noqa
             continue
